@@ -179,6 +179,14 @@ func (p Printer) inline(ns []Node) string {
 	return "{\n" + strings.Join(parts, "\n") + "\n}"
 }
 
+func (p Printer) hash(kvs []KV) string {
+	parts := make([]string, len(kvs))
+	for i, kv := range kvs {
+		parts[i] = kv.K + ": " + p.expr(kv.V, 0)
+	}
+	return "{" + strings.Join(parts, ", ") + "}"
+}
+
 func (p Printer) ifHead(i *If) string {
 	if p.Compact && ifAllCode(i) {
 		s := "if (" + p.expr(i.Cond, 0) + ") " + p.inline(i.Then)
@@ -253,6 +261,18 @@ func (p Printer) Nodes(ns []Node) string {
 			sb.WriteString("<%= " + p.forHead(t.For) + " %>")
 		case Code:
 			sb.WriteString("<% " + p.Stmt(t.S) + " %>")
+		case EmitPartial:
+			sb.WriteString("<%= partial(" + p.lit(t.Name) + ", " + p.hash(t.Data) + ") %>")
+		case ContentFor:
+			sb.WriteString("<% contentFor(" + p.lit(t.Name) + ") { %>" + p.Nodes(t.Body) + "<% } %>")
+		case EmitContentOf:
+			sb.WriteString("<%= contentOf(" + p.lit(t.Name) + ", " + p.hash(t.Data) + ") %>")
+		case EmitBlock:
+			arg := ""
+			if t.Data != nil {
+				arg = p.hash(t.Data)
+			}
+			sb.WriteString("<%= " + t.Helper + "(" + arg + ") { %>" + p.Nodes(t.Body) + "<% } %>")
 		default:
 			panic(fmt.Sprintf("model: cannot print node %T", n))
 		}
